@@ -33,6 +33,7 @@ RULE = {  # two distinct hand-written rules per tag (values never produced by th
     "curs": ("pos a 19;", "pos b 21;"),
 }
 SHAPES = ["plain", "alone", "top", "middle", "bottom", "miscased"]
+GEN_TAGS = ("kern", "dist", "mark", "mkmk", "abvm", "blwm", "curs")
 
 
 def block(tag, shape):
@@ -52,7 +53,9 @@ PALETTE = {
     "cls": "@myclass = [a b];\n",
     "lkp": "lookup mylookup {\n    sub a by b;\n} mylookup;\n",
     "liga": "feature liga {\n    sub a b by f_i;\n} liga;\n",
-    "gdef": "table GDEF {\n    GlyphClassDef [a b ka-deva ta-deva a.alt], [f_i], [acutecomb], ;\n} GDEF;\n",
+    "gdef": "table GDEF {\n    GlyphClassDef [a b ka-deva ta-deva a.alt], [f_i], [acutecomb anusvara-deva nukta-deva], ;\n} GDEF;\n",
+    "gdef-caretpos": "table GDEF {\n    LigatureCaretByPos f_i 123;\n} GDEF;\n",
+    "gdef-caretidx": "table GDEF {\n    LigatureCaretByIndex f_i 1;\n} GDEF;\n",
     "comment": "# a top-level comment\n",
 }
 for _t in GPOS_TAGS:
@@ -68,17 +71,26 @@ WRITER_LISTS = ["default", "lib", "kern-only", "ellipsis+custom", "perm0", "perm
 def make_spec(ls, ops, lib_writers=False):
     glyphs = {".notdef": {"width": 500, "contours": [B.box(50, 0, 450, 700)]}}
     for n, uv in (("a", 0x61), ("b", 0x62), ("a.alt", None), ("f_i", None), ("ka-deva", 0x915),
-                  ("ta-deva", 0x924), ("acutecomb", 0x301)):
-        g = {"width": 0 if n == "acutecomb" else 500, "contours": [B.box(10, 0, 90, 100)], "anchors": []}
+                  ("ta-deva", 0x924), ("acutecomb", 0x301), ("anusvara-deva", 0x902), ("nukta-deva", 0x93C)):
+        g = {"width": 0 if n in ("acutecomb", "anusvara-deva", "nukta-deva") else 500,
+             "contours": [B.box(10, 0, 90, 100)], "anchors": []}
         if uv:
             g["unicodes"] = [uv]
         glyphs[n] = g
     glyphs["a"]["anchors"] = [("top", 250, 600), ("entry", 0, 0), ("exit", 500, 0)]
     glyphs["b"]["anchors"] = [("top", 260, 610), ("entry", 0, 10), ("exit", 500, 10)]
     glyphs["acutecomb"]["anchors"] = [("_top", 0, 550), ("top", 0, 700)]
+    # Devanagari marks: the mark writer then also generates abvm and blwm (several dependent features)
+    glyphs["ka-deva"]["anchors"] = [("top", 300, 650), ("bottom", 300, -20)]
+    glyphs["anusvara-deva"]["anchors"] = [("_top", 0, 600)]
+    glyphs["nukta-deva"]["anchors"] = [("_bottom", 0, 0)]
+    glyphs["f_i"]["anchors"] = [("caret_1", 250, 0)]
     spec = {"glyphs": glyphs, "order": list(glyphs),
             "kerning": [("a", "b", -40), ("a.alt", "a.alt", -30), ("ka-deva", "ta-deva", -50)],
-            "features": LS[ls] + "".join(PALETTE[o] for o in ops), "lib": {}}
+            "features": LS[ls] + "".join(PALETTE[o] for o in ops),
+            "lib": {"public.openTypeCategories": {"a": "base", "b": "base", "f_i": "ligature", "acutecomb": "mark",
+                                                  "anusvara-deva": "mark", "nukta-deva": "mark",
+                                                  "ka-deva": "base", "ta-deva": "base", "a.alt": "base"}}}
     if lib_writers:
         spec["lib"]["com.github.googlei18n.ufo2ft.featureWriters"] = [
             {"class": "KernFeatureWriter", "options": {"mode": "skip"}},
@@ -131,11 +143,12 @@ def flatten(doc):
     for st in doc.statements:
         if isinstance(st, ast.Comment):
             continue
-        if isinstance(st, ast.FeatureBlock):
+        if isinstance(st, (ast.FeatureBlock, ast.TableBlock)):
+            scope = st.name if isinstance(st, ast.FeatureBlock) else "table:" + st.name
             for inner in st.statements:
                 if isinstance(inner, ast.Comment):
                     continue
-                out.append((st.name, " ".join(inner.asFea().split())))
+                out.append((scope, " ".join(inner.asFea().split())))
         else:
             out.append(("top", " ".join(st.asFea().split())))
     return out
@@ -221,6 +234,8 @@ class C17(Property):
             return
         if len(ops) < b["full_depth"]:
             for o in PALETTE:
+                if o.startswith("gdef") and any(x.startswith("gdef") for x in ops):
+                    continue  # one GDEF table block per file
                 if o in ("lkp", "gdef") and o in ops:
                     continue  # redefinition is invalid input
                 yield o
@@ -276,6 +291,45 @@ class C17(Property):
                 elif tag in active and not generated:
                     viols.append(violation("marker-nothing-generated", dict(feat, tag=tag),
                                            user=spec["features"], emitted=fea))
+        # (3b) hand-written GDEF statements are neither overwritten nor duplicated
+        for what in ("GlyphClassDef", "LigatureCaret"):
+            mine = [t for sc, t in user_flat if sc == "table:GDEF" and t.startswith(what)]
+            if mine:
+                ctr["protected_blocks"] += 1
+                theirs = [t for sc, t in emitted if sc == "table:GDEF" and t.startswith(what)]
+                if theirs != mine:
+                    viols.append(violation("user-gdef-changed", dict(feat, what=what), user=spec["features"],
+                                           expected=mine, observed=theirs, emitted=fea))
+        # (3c) the generated blocks keep their relative order whatever marker the user placed
+        #      (anchor: "_insert ... dependent features kept in order")
+        if head["mode"] == "skip" and head["writers"] == "default" and any(":" in o for o in ops):
+            ref_spec = make_spec(head["ls"], [o for o in ops if ":" not in o])
+            _, ref_fea = compile_font(ref_spec)
+            ref_flat = flatten(parse(ref_fea, names))
+            ref_user = flatten(parse(ref_spec["features"], names))
+
+            def gen_order(flat, user):
+                pool = list(user)
+                order = []
+                for item in flat:
+                    if item in pool:
+                        pool.remove(item)
+                        continue
+                    if item[0] in GEN_TAGS and item[0] not in order:
+                        order.append(item[0])
+                return order
+            o_ref, o_got = gen_order(ref_flat, ref_user), gen_order(emitted, user_flat)
+            # only the blocks of ONE writer have a defined mutual order
+            for group in (("kern", "dist"), ("abvm", "blwm", "mark", "mkmk")):
+                marked = {o.split(":")[0] for o in ops if ":" in o and o.split(":")[0] in group
+                          and o.split(":")[1] in ("alone", "top", "middle", "bottom")}
+                if len(marked) > 1:
+                    continue  # several markers of one writer: the user's markers dictate the order
+                common = [t for t in o_ref if t in o_got and t in group]
+                if [t for t in o_got if t in common] != common:
+                    viols.append(violation("generated-feature-order", dict(feat, writer=group[0]),
+                                           user=spec["features"], expected=o_ref, observed=o_got, emitted=fea))
+            ctr["order_checks"] = 1
         # (4) GSUB untouched by the automatic writers
         if head["writers"] == "default":
             ctr["gsub_identity_checks"] = 1
